@@ -556,12 +556,12 @@ fn build_function(function: &Function) -> Result<proc_macro2::TokenStream, anyho
         .transpose()?;
 
     // The local holding the function pointer must not shadow a parameter (a parameter
-    // named `f` would otherwise be passed the pointer itself).
+    // named `f`, or `r#f`, would otherwise be passed the pointer itself).
     let mut pointer_name = "f".to_string();
     while function
         .arguments
         .iter()
-        .any(|a| matches!(a, Argument::Field(name, _) if *name == pointer_name))
+        .any(|a| matches!(a, Argument::Field(name, _) if unraw(name) == pointer_name))
     {
         pointer_name.push('_');
     }
